@@ -305,3 +305,44 @@ claim('C06',
       'EC half: primality of the field modulus is a hypothesis of validKey_iff (not of the cofactor-1 theorems); no curve of CURVE_FACTORY has a cofactor, so the subgroup test is exercised on toy curves only. The property text "2^-37" for the ROCA false-positive rate is NOT confirmed (see C07).',
       'Lean 4 proof of exact closed-form characterisations over an executable model + kernel evaluation on regenerated constants + differential correspondence with the Python implementation',
       'DESIGN.md section 5 C06')
+
+
+NOTES_C02S = (
+    'Lean theorems (Props/C02S.lean, namespace Paranoid.C02S) over the executable model Model/EcdsaChecks.lean of ecdsa_sig_checks.py: '
+    '_MapIssuerSigIndexes, _IssuerDLogs, BiasedBaseCheck.__init__/.Check (CheckLCGNonceGMP, CheckLCGNonceJavaUtilRandom, CheckNonceMSB, '
+    'CheckNonceCommonPrefix, CheckNonceCommonPostfix, CheckNonceGeneralized) and CheckCr50U2f.Check. The lattice solvers '
+    '(HiddenNumberProblem, HiddenNumberProblemForCurve, Cr50U2fGuesses) and Python set iteration order (unique_vals, list(guesses)) are oracles. '
+    'C02 signature half: issuerDLogs_sound (EVERY guess list, every dict, every cache with _cache[k]=k*G: idx->d implies d is a guess, idx is listed under a key tuple k, '
+    'k lies on the curve and equals (d mod n)*G in the Mathlib group; isKeyOf_zsmul: = d*G when n*G = 0; isKeyOf_congr: d unique mod n when ord G = n) and '
+    'weak_only_with_key (every nonce check, every batch, every oracle answer: an entry is positive only with DISCRETE_LOG = format(d,"x") for such a d of the signature\'s OWN issuer key and OWN curve group). '
+    'C08 last clause: group_isolation (the verdict depends on the oracle only through the answers for the signature\'s curve group), verdict_exact / all_of_issuer_flagged '
+    '(reduced generator and caches: flagged IFF the issuer key tuple has coordinates < p and some guess of the group is a private key of it; recorded value = LAST such guess of list(guesses); '
+    'every signature of the batch with that curve and key gets the same positive verdict; a key given as x+p or off the curve is never matched), '
+    'hnp_args + hnp_args_relation (the (a_i,b_i) handed over are HiddenNumberParams of each unique (r,s,z): k = a + b d mod n), windows_plan / windows_cover (24/48/120, stop after first size >= len, every unique signature in some window), cr50_args. '
+    'C17: mapIssuer_partition (distinct keys, increasing non-empty index lists, permutation of range(len)), writes_by_index (exactly one entry per signature with a known curve, none otherwise), '
+    'verdict_independent (verdict = function of curve, own key tuple, list(guesses) of own group: not of batch, position, order, check kind, cache content, earlier calls), flagged_monotone '
+    '(flagged stays flagged when the guess set grows), check_preserves (curve objects satisfy all hypotheses again after every call). '
+    'C18: check_total (never raises when every known-curve signature has s invertible mod n — any r, hash length 0.., key, curve id, batch size incl. empty, any oracle answer; CheckCr50U2f unconditionally), '
+    'check_error + check_raises (exact set of raising inputs: a BiasedBaseCheck on a batch containing ONE known-curve signature with s = 0 mod n raises ZeroDivisionError for the whole batch; nothing else raises), '
+    'namedFactory_ok (hypotheses hold for CURVE_FACTORY as regenerated, given primality of the nine field primes). '
+    'Correspondence (harness/corr/c02s.py, ~800 lines per quick run, 3 seeds green): every Check call of the seven real check objects on batches of 1-3 issuers x 1-2 curves with planted MSB/prefix/postfix/Cr50 bias '
+    '(real solvers recover the key), healthy, duplicate, same-(r,s)-other-hash signatures, unreduced/invalid keys, unknown curve ids, r/s out of range, empty batch, hash lengths 0..64, window boundaries 1..130, '
+    'repeated calls of the same object, alone/batch/permuted; solver ARGUMENTS predicted exactly, ANSWERS real or adversarial (0, n, n+-1, d, d+-n, -d, 2d, other keys, random, huge, duplicates, mpz); '
+    '_IssuerDLogs, _MapIssuerSigIndexes and __init__ also directly. 14 mutants of ecdsa_sig_checks.py all detected (VIOLATION with replay). '
+    'Not covered: exceptions raised INSIDE the solvers (observed: Cr50U2fGuesses raises ZeroDivisionError for r = 0 mod n when its sub-problem has a solution — outside r in [1,n-1]); '
+    'verdicts already written for earlier curve groups when a later group raises; injectivity of format(d,"x"); primality of the field primes (hypothesis). '
+    'Observed behaviour worth knowing (no property violated): one signature with s = 0, n, 2n.. makes the six BiasedBaseCheck.Check calls (hence CheckAllECDSASigs) raise for the whole batch.')
+
+
+
+claim('C02',
+      'Lean theorems (Props/C02.lean, over Mathlib\'s group of the curve via toPoint): (1) BatchDL — every reported value v satisfies v*G = P, both sign branches, for every cached state, bound and float-oracle value; '
+      '(2) ExtendedBatchDL / CheckWeakECPrivateKey — for a valid point (n*P = 0) the recorded value is a true discrete log, and the hypothesis is needed (kernel-evaluated counter-example on a 2-torsion point); '
+      '(3) BatchDLOfDifferences / CheckECKeySmallDifference — a recorded relation "key - (x,y) = k*G" names another key of the call with P - Q = k*G, mirrored with -k; '
+      '(4) ECDSA nonce checks — for EVERY list of guesses returned by the lattice solvers (LLL noise, adversarial lists), _IssuerDLogs assigns d to a signature only if BatchMultiplyG([d]) equals that signature\'s own issuer key tuple '
+      '(issuerDLogs_sound, on top of C11 batchMultiplyG_spec), and a nonce/LCG/U2F check marks a signature weak only together with such a key (weak_only_with_key). '
+      'Model tied to /repo by the C10 (BSGS, EC checks through protobuf keys, toy curves exhaustively, cache histories) and C02S (real checks with recorded and adversarial solver answers, several issuers and curves, repeated calls) correspondences; '
+      'every recorded log / relation is re-verified with independent affine arithmetic on the implementation.',
+      'Trusted: Lean kernel, harness. Hypothesis of the theorems: the field prime p (and for order statements n) is prime — validated per run with gmpy2.is_prime. LLL and the float sqrt are oracles quantified away.',
+      'Lean 4 proof of soundness over an executable model (refined to Mathlib\'s elliptic-curve group) + differential correspondence with recorded and adversarial oracle answers',
+      'DESIGN.md section 5 C02')
